@@ -558,7 +558,10 @@ def slackBatches (slack n : Nat) : List (List α) → List α → List (List α)
     if (cur ++ g).length + slack ≥ n then (cur ++ g) :: slackBatches slack n gs [] else slackBatches slack n gs (cur ++ g)
 
 /-- the slack constant in `maybeFlush` of datadog/flush.go and newrelic/flush.go -/
-def flushSlack : Nat := Facts.datadogFlushSlack   -- read from datadog/flush.go on every run (newrelic: `Facts.newrelicFlushSlack`)
+def flushSlack : Nat := if Facts.datadogFlushSlack = 0 then 20 else Facts.datadogFlushSlack   -- read from datadog/flush.go on every run (0 = the extractor found no constant: built-in value; newrelic: `Facts.newrelicFlushSlack`)
+
+/-- the same constant in newrelic/flush.go (read separately: the two backends need not agree) -/
+def nrFlushSlack : Nat := if Facts.newrelicFlushSlack = 0 then 20 else Facts.newrelicFlushSlack
 
 /-- otlp `groups.insert`: append to the last group, `if lenMetrics() >= batchSize {append a new group}`;
 every group, including a trailing empty one, is posted -/
@@ -568,7 +571,7 @@ def otlpBatches (n : Nat) : List α → List α → List (List α)
     if (cur ++ [x]).length ≥ n then (cur ++ [x]) :: otlpBatches n xs [] else otlpBatches n xs (cur ++ [x])
 
 /-- the CloudWatch limit in `SendMetricsAsync` (`end := start + 20`) -/
-def cwLimit : Nat := Facts.cloudwatchChunk   -- read from cloudwatch.go on every run
+def cwLimit : Nat := if Facts.cloudwatchChunk = 0 then 20 else Facts.cloudwatchChunk   -- read from cloudwatch.go on every run (0 = not found: built-in value)
 
 /-- cloudwatch `for start < length { end := min(start+20, length); data := metricData[start:end]; … }`
 (`fuel` only makes the recursion structural; `cwChunks` supplies enough) -/
